@@ -35,6 +35,9 @@ func isMacroDefinition(node ast.Node) bool {
 	if !ok {
 		return false
 	}
+	if _, ok = exp.Left.(*ast.Identifier); !ok {
+		return false // e.g. `a[0] = macro(...)`: not a definition, evaluating it reports the error.
+	}
 	_, ok = exp.Right.(*ast.MacroLiteral)
 	return ok
 }
